@@ -121,11 +121,16 @@ def random_write(r, ids, key, data, fl=None, algo=None, big=False):
     """One of the write entry points, chosen at random.  Returns (ops, algo)."""
     fl = fl or r.pick(["s", "a"])
     algo = algo or r.pick(L.ALL_ALGOS)
-    mode = r.randrange(4)
+    mode = r.randrange(5)
     if mode == 0:
         return [w_oneshot(fl, algo, key, data)], algo
     if mode == 1:
         _, ops = w_stream(ids, fl, key, data, G.chunking(r, data), algo=algo)
+        return ops, algo
+    if mode == 4:
+        # with everything a writer can attach: lookups and listings must hand all of it back
+        _, ops = w_stream(ids, fl, key, data, G.chunking(r, data), algo=algo, time=r.pick([7, 2**70]),
+                          meta={"tag": "\u00e9", "n": [1, 2.5, None]}, raw=r.pick([b"\x00\xffraw", b""]))
         return ops, algo
     if mode == 2:
         # correctly declared size: exactly one chunk of that size is the only shape that every
